@@ -125,6 +125,7 @@ class Ctx:
         self.notes = []
         self.entry_syms = {}
         self.await_log = []
+        self.lazy_facts = []  # true facts that are expensive for the solver (quantified pointwise axioms)
 
     # ---- symbols -------------------------------------------------------
     def fresh_name(self, base):
@@ -157,6 +158,11 @@ class Ctx:
             raise Infeasible()
         self.pc.append(f)
         self.solver.add(f)
+
+    def assume_lazy(self, f):
+        """A fact that holds on this path but is only handed to the solver when an obligation is not
+        proved without it (dropping hypotheses is sound for proving)."""
+        self.lazy_facts.append(f)
 
     def is_feasible(self, *extra):
         r = _check(self.solver, *extra, timeout=FEAS_TIMEOUT_MS)
@@ -257,6 +263,8 @@ class Ctx:
             t0 = time.time()
             r = _check(self.solver, *extra_hyp, z3.Not(f),
                        timeout=FEAS_TIMEOUT_MS if name.endswith("::__canary__") else None)
+            if r != z3.unsat and self.lazy_facts and not name.endswith("::__canary__"):
+                r = _check(self.solver, *extra_hyp, *self.lazy_facts, z3.Not(f))
             if name.endswith("::__canary__") and r == z3.unknown:
                 # the planted false assertion is *not proved*: that is all the canary has to show
                 self.obligations.append((name, "refuted", {"backend": "z3", "t": time.time() - t0, "model": None,
